@@ -7,20 +7,21 @@ import Mathlib.Tactic.Ring
 import Mathlib.Tactic.Linarith
 import Mathlib.Data.Int.GCD
 
-namespace Ymq.Arith
+namespace Ymq.Snf
+open Ymq.Arith
 
-theorem chk128_eq {x y : Int} (h : chk128 x = some y) : y = x := by
+theorem chk128_val {x y : Int} (h : chk128 x = some y) : y = x := by
   unfold chk128 at h
   split at h
   · exact (Option.some.inj h).symm
   · exact absurd h (by simp)
 
-theorem subMul_eq {a q b r : Int} (h : subMul a q b = some r) : r = a - q * b := by
+theorem subMul_val {a q b r : Int} (h : subMul a q b = some r) : r = a - q * b := by
   unfold subMul at h
   split at h
   · exact absurd h (by simp)
   · rename_i m hm
-    rw [chk128_eq h, chk128_eq hm]
+    rw [chk128_val h, chk128_val hm]
 
 /-- loop invariant: both remainders are combinations of the inputs and their gcd is the gcd of the
 inputs -/
@@ -44,9 +45,9 @@ theorem egcdLoop_inv (a b : Int) : ∀ (f : Nat) (s0 s1 t0 t1 r0 r1 g x y : Int)
       · simp only [] at h
         split at h
         · rename_i r0' s0' t0' hr hs ht
-          have er := subMul_eq hr
-          have es := subMul_eq hs
-          have et := subMul_eq ht
+          have er := subMul_val hr
+          have es := subMul_val hs
+          have et := subMul_val ht
           apply egcdLoop_inv a b f s0' s0 t0' t0 r0' r0 g x y h
           · rw [er, es, et, h0, h1]; ring
           · exact h0
@@ -57,7 +58,7 @@ theorem egcdLoop_inv (a b : Int) : ∀ (f : Nat) (s0 s1 t0 t1 r0 r1 g x y : Int)
         · exact absurd h (by simp)
 
 /-- `extended_gcd(a, b) = (g, x, y)`: `x·a + y·b = g = gcd(a, b) ≥ 0`. -/
-theorem extendedGcd_spec {a b g x y : Int} (h : extendedGcd a b = some (g, x, y)) :
+theorem extendedGcd_bezout {a b g x y : Int} (h : extendedGcd a b = some (g, x, y)) :
     x * a + y * b = g ∧ 0 ≤ g ∧ g ∣ a ∧ g ∣ b := by
   unfold extendedGcd at h
   split at h
@@ -87,12 +88,12 @@ theorem extendedGcd_spec {a b g x y : Int} (h : extendedGcd a b = some (g, x, y)
         simp only [Prod.mk.injEq] at this
         obtain ⟨r1, r2, r3⟩ := this
         subst r1; subst r2; subst r3
-        have eg := chk128_eq hg'
-        have ex := chk128_eq hx'
-        have ey := chk128_eq hy'
+        have eg := chk128_val hg'
+        have ex := chk128_val hx'
+        have ey := chk128_val hy'
         refine ⟨by rw [eg, ex, ey, e1]; ring, by rw [eg]; omega, ?_⟩
         apply hdvd
         rw [eg, ← e2]; simp
       · exact absurd h (by simp)
 
-end Ymq.Arith
+end Ymq.Snf
